@@ -227,6 +227,9 @@ pub fn run(ctx: &mut Ctx) {
     });
     ctx.require(&r, &["accepted", "rejected"]);
     // hidden state: every ordered pair of operation calls on a fresh thread against the lone call (no model involved)
-    let hist_calls = crate::histpairs::calls_ops(false, &|op| matches!(op.sig().0, 3 | 4));
+    let hist_calls = crate::histpairs::calls_ops(true, &|op| matches!(op.sig().0, 3 | 4));
     crate::histpairs::pairwise(ctx, "C13", "interval_operations", hist_calls);
+    let hist_calls_full = crate::histpairs::calls_ops(false, &|op| matches!(op.sig().0, 3 | 4));
+    crate::histpairs::pairwise_same_thread(ctx, "C13", "interval_operations", hist_calls_full);
+    crate::histpairs::pairwise(ctx, "C13", "field_accessors_and_constructors", crate::histpairs::calls_accessors());
 }
